@@ -108,11 +108,11 @@ Print Assumptions code_carried_by_one_grant.
 
 (* non-vacuity: a history in which a code is minted, redeemed once, and refused the second time *)
 Example code_flow_exists :
-  let c1 := mkClient 1 false [GAuthorizationCode] ["code"] ["https://c/cb"] "openid" CibaNone false false false false false false false 0 false in
+  let c1 := mkClient 1 false [GAuthorizationCode] ["code"] ["https://c/cb"] "openid" CibaNone false false false false false false false 0 false None in
   let w := mkWorld (match build POpenID [WithAuthorizationCodeGrant] with Some c => c | None => base_config POpenID end) [c1] in
-  let p := mkParams 0 "https://c/cb" "" "code" "openid" "s" "" PkEmpty "" 0 "" 0 "" [] in
-  let tr code := mkTReq (mkCred 1 true) no_bind "" code "https://c/cb" 0 PkEmpty 0 HgOk BaApprove [] AsNone in
-  let ops := [OpAuthorize (mkAReq 1 p true (PolSuccess "alice" "openid" [])); OpToken GAuthorizationCode (tr (mint 0 KCode)); OpToken GAuthorizationCode (tr (mint 0 KCode))] in
+  let p := mkParams 0 "https://c/cb" "" "code" "openid" "s" "" PkEmpty "" 0 "" 0 "" [] None in
+  let tr code := mkTReq (mkCred 1 true) no_bind "" code "https://c/cb" 0 PkEmpty 0 HgOk BaApprove [] AsNone None in
+  let ops := [OpAuthorize (mkAReq 1 p true (PolSuccess "alice" "openid" [] [])); OpToken GAuthorizationCode (tr (mint 0 KCode)); OpToken GAuthorizationCode (tr (mint 0 KCode))] in
   match run w [] ops with
   | [Out (ONav _ _ nv); Out (OTokens _); Out (OErr EInvalidGrant)] => n_code nv = mint 0 KCode
   | _ => False end.
@@ -121,12 +121,12 @@ Proof. vm_compute. reflexivity. Qed.
 (* non-vacuity of the omitted-method case: S256 is the default, the request carries the thumbprint of the
    verifier and no code_challenge_method - the pre-image redeems the code, the challenge string does not *)
 Example code_flow_method_omitted :
-  let c1 := mkClient 1 false [GAuthorizationCode] ["code"] ["https://c/cb"] "openid" CibaNone false false false false false false false 0 false in
+  let c1 := mkClient 1 false [GAuthorizationCode] ["code"] ["https://c/cb"] "openid" CibaNone false false false false false false false 0 false None in
   let w := mkWorld (match build POpenID [WithAuthorizationCodeGrant; WithPKCE "S256" []] with Some c => c | None => base_config POpenID end) [c1] in
   let v := PkRaw 1 true in
-  let p := mkParams 0 "https://c/cb" "" "code" "openid" "s" "" (PkHash v) "" 0 "" 0 "" [] in
-  let tr code vf := mkTReq (mkCred 1 true) no_bind "" code "https://c/cb" 0 vf 0 HgOk BaApprove [] AsNone in
-  let a := OpAuthorize (mkAReq 1 p true (PolSuccess "alice" "openid" [])) in
+  let p := mkParams 0 "https://c/cb" "" "code" "openid" "s" "" (PkHash v) "" 0 "" 0 "" [] None in
+  let tr code vf := mkTReq (mkCred 1 true) no_bind "" code "https://c/cb" 0 vf 0 HgOk BaApprove [] AsNone None in
+  let a := OpAuthorize (mkAReq 1 p true (PolSuccess "alice" "openid" [] [])) in
   match run w [] [a; OpToken GAuthorizationCode (tr (mint 0 KCode) v); a; OpToken GAuthorizationCode (tr (mint 2 KCode) (PkHash v))] with
   | [Out (ONav _ _ _); Out (OTokens _); Out (ONav _ _ _); Out (OErr EInvalidGrant)] => True
   | _ => False end.
